@@ -33,7 +33,7 @@ PROPS = {
         legs=[dict(monitor="c02", config="asan", name="c02:surface/asan", cases=K(120000, 3000000)),
               dict(monitor="c02", config="asan-dev", name="c02:surface/asan-dev", cases=K(16000, 400000)),
               dict(monitor="c02", config="plain", name="c02:surface/valgrind", cases=K(3200, 64000), env={"VERIF_LOG_EACH_CASE": "1"},
-                   wrap=["valgrind", "-q", "--error-exitcode=99", "--exit-on-first-error=yes", "--leak-check=full", "--errors-for-leak-kinds=definite", "--track-origins=no", "--max-stackframe=8388608"],
+                   wrap=["valgrind", "-q", "--error-exitcode=99", "--exit-on-first-error=yes", "--leak-check=full", "--errors-for-leak-kinds=definite", "--track-origins=no", "--max-stackframe=8388608", "--vgdb=no"],
                    args=["--alarm", "1200"])],
         rule="six arbitrary byte strings per case (random bytes, embedded NULs, stray/truncated UTF-8, corrupted corpus URLs, xn-- labels, pattern syntax, sizes 0..64 KiB incl. "
              "the 16384+-1 IDNA boundary; every single byte value and the empty string) drive seven entry-point families from one driver: parse with/without base + random "
